@@ -335,7 +335,18 @@ def t_argtmp(src):
     return ast.unparse(ast.fix_missing_locations(tree)) + "\n"
 
 
-MODES = {"argtmp": t_argtmp, "condtmp": t_condtmp, "rettmp": t_rettmp, "splitand": t_splitand, "dropelse": t_dropelse, "yoda": t_yoda, "annotate": t_annotate, "reformat": t_reformat, "shift": t_shift, "log": t_log, "rename": t_rename, "messages": t_messages, "swapelse": t_swapelse}
+def t_forunpack(src):
+    """`for a, b in X:` becomes `for _t in X:` / `a, b = _t` (statement-level for loops with a tuple target)."""
+    tree = ast.parse(src)
+    for n in ast.walk(tree):
+        if isinstance(n, ast.For) and isinstance(n.target, (ast.Tuple, ast.List)) and not any(isinstance(e, ast.Starred) for e in n.target.elts):
+            tgt = n.target
+            n.target = ast.Name(id="_t", ctx=ast.Store())
+            n.body.insert(0, ast.Assign(targets=[tgt], value=ast.Name(id="_t", ctx=ast.Load())))
+    return ast.unparse(ast.fix_missing_locations(tree)) + "\n"
+
+
+MODES = {"forunpack": t_forunpack, "argtmp": t_argtmp, "condtmp": t_condtmp, "rettmp": t_rettmp, "splitand": t_splitand, "dropelse": t_dropelse, "yoda": t_yoda, "annotate": t_annotate, "reformat": t_reformat, "shift": t_shift, "log": t_log, "rename": t_rename, "messages": t_messages, "swapelse": t_swapelse}
 
 
 def main():
